@@ -113,3 +113,19 @@ def factories(prefix: str, stats=None):
         return SimRLock(stats) if from_library() else _real_rlock()
 
     return Lock, RLock
+
+
+_installed = False
+
+
+def install_globally(prefix: str) -> None:
+    """Permanently (for this process) route lock creation through the factories: objects of the library that are created
+    before a world is installed - a KeyCache built by the harness, a module-level lock created at import time - get simulated
+    locks as well.  Everything not created by library frames keeps getting real locks."""
+    global _installed
+    if _installed:
+        return
+    _installed = True
+    lock, rlock = factories(prefix, None)
+    threading.Lock = lock  # type: ignore[assignment]
+    threading.RLock = rlock  # type: ignore[assignment]
